@@ -757,42 +757,50 @@ func (c *Conn) writev(in [][]byte) (int, error) {
 	}
 
 	nwrite, err := writev(c, in)
-	if nwrite > 0 {
-		n := nwrite
-		onWrittenSize := c.p.g.onWrittenSize
-		if n < size {
-			for i := 0; i < len(in); i++ {
-				b := in[i]
-				if len(b) == 0 {
-					continue
-				}
-				if n == 0 {
-					c.newToWriteBuf(b)
-					// c.appendWrite(t)
-				} else {
-					if n < len(b) {
-						if onWrittenSize != nil {
-							onWrittenSize(c, b[:n], n)
-						}
-						c.newToWriteBuf(b[n:])
-						// c.appendWrite(t)
-						n = 0
-					} else {
-						if onWrittenSize != nil {
-							onWrittenSize(c, b, len(b))
-						}
-						n -= len(b)
-					}
-				}
-			}
-			// the unsent remainder has been queued: the whole input is accepted.
-			return size, nil
-		}
-	} else {
+	if nwrite < 0 {
 		nwrite = 0
 	}
+	if err != nil &&
+		!errors.Is(err, syscall.EINTR) &&
+		!errors.Is(err, syscall.EAGAIN) {
+		return nwrite, err
+	}
+	if err != nil && c.typ != ConnTypeTCP && c.typ != ConnTypeUnix {
+		// datagrams are not queued.
+		return nwrite, err
+	}
+	if nwrite < size {
+		// as in write(): what the socket has not taken is queued.
+		n := nwrite
+		onWrittenSize := c.p.g.onWrittenSize
+		for i := 0; i < len(in); i++ {
+			b := in[i]
+			if len(b) == 0 {
+				continue
+			}
+			if n == 0 {
+				c.newToWriteBuf(b)
+				// c.appendWrite(t)
+			} else {
+				if n < len(b) {
+					if onWrittenSize != nil {
+						onWrittenSize(c, b[:n], n)
+					}
+					c.newToWriteBuf(b[n:])
+					// c.appendWrite(t)
+					n = 0
+				} else {
+					if onWrittenSize != nil {
+						onWrittenSize(c, b, len(b))
+					}
+					n -= len(b)
+				}
+			}
+		}
+	}
 
-	return nwrite, err
+	// sent, or the unsent remainder has been queued: the whole input is accepted.
+	return size, nil
 }
 
 // func (c *Conn) appendWrite(t *toWrite) {
